@@ -886,6 +886,30 @@ func (in *Interp) opaqueMethod(o *Opaque, meth *types.Func) value {
 			}
 			o.count = in.tc.Add(o.count, in.tc.Const(64, 1))
 		}
+		if name == "WithLabelValues" {
+			// the same child metric for the same label values (so that increments add up)
+			key := "WithLabelValues:"
+			if len(args) > 1 {
+				if vs, ok := args[1].([]value); ok {
+					for _, v := range vs {
+						if str, ok := concreteStr(v); ok {
+							key += str + "\x00"
+						} else {
+							key += "?\x00"
+						}
+					}
+				}
+			}
+			if o.children == nil {
+				o.children = map[string]value{}
+			}
+			if c, ok := o.children[key]; ok {
+				return c
+			}
+			c := in.noopResults(sig, args[1:], o.name+"."+name)
+			o.children[key] = c
+			return c
+		}
 		return in.noopResults(sig, args[1:], o.name+"."+name)
 	}}
 }
